@@ -202,6 +202,7 @@ func (nloc *nodeLoc) read(o *Store) (n *node, err error) {
 		return n, err
 	}
 
+	verifYield(18) // VerifSiteNodeSet
 	nloc.setNode(n)
 	return n, nil
 }
